@@ -45,6 +45,10 @@ static POMDP::ValueFunction solve(const std::string & alg, const M & model, unsi
     if (alg == "wit") { POMDP::Witness s(h, 0.0); return std::get<1>(s(model)); }
     if (alg == "ls")  { POMDP::LinearSupport s(h, 0.0); return std::get<1>(s(model)); }
     if (alg == "pbvi") { POMDP::PBVI s(nb, h, 0.0); return std::get<1>(s(model)); }
+    if (alg == "pbviw") {   // warm start: solve, then extend the returned value function by h more steps
+        POMDP::PBVI s(nb, h, 0.0); auto vf = std::get<1>(s(model));
+        POMDP::PBVI s2(nb, h, 0.0); return std::get<1>(s2(model, vf));
+    }
     if (alg == "perseus") { POMDP::PERSEUS s(nb, h, 0.0); return std::get<1>(s(model, minR)); }
     if (alg == "qmdp") { POMDP::QMDP s(h, 0.0); return std::get<1>(s(model)); }
     throw std::logic_error("unknown solver " + alg);
